@@ -88,6 +88,12 @@ func (vm *VotingMachine) CollectVote(vote hotstuff.VoteMsg) {
 }
 
 func (vm *VotingMachine) verifyCert(cert hotstuff.PartialCert, block *hotstuff.Block) {
+	// a vote is one replica's signature; a multi-signature stored as a single vote would make the
+	// signers overlap when the quorum certificate is assembled, which would then never succeed.
+	if sig := cert.Signature(); sig == nil || sig.Participants().Len() != 1 {
+		vm.logger.Info("vote does not carry exactly one signature")
+		return
+	}
 	if err := vm.auth.VerifyPartialCert(cert); err != nil {
 		vm.logger.Infof("vote could not be verified: %v", err)
 		return
